@@ -355,6 +355,18 @@ def mk_rop(letter, rng, nt, bo, atom):
         return dict(op='append', items=[nd_spec(small_values(rng, bad, dtype_str(nt, bo)))])
     if letter == 'asw':
         return dict(op='append', items=[item_spec(rng, nt, bo, atom, 2, 'swapped')])
+    if letter == 'aovf':     # a LIST holding a number NumPy refuses to convert to the array's type
+        dk = np.dtype(nt).kind
+        if dk in 'iu':
+            v = [int(np.iinfo(nt).max) + 1, 1] if rng.random() < 0.6 else [1, int(np.iinfo(nt).min) - 1]
+        elif dk == 'f':
+            v = [1 + 2j, 0]
+        else:
+            return dict(op='append', items=[dict(kind='str')])
+        row = lambda x: x
+        def shaped(val, dims):
+            return val if not dims else [shaped(val, dims[1:]) for _ in range(dims[0])]
+        return dict(op='append', items=[dict(kind='pylist', value=repr([shaped(x, list(t)) for x in v]))])
     if letter == 'astr':     # a numeric string: NumPy makes ONE number of it
         return dict(op='append', items=[dict(kind='numstr', value=rng.choice(['12', '3', '1e3']), bytes=rng.random() < 0.3)])
     if letter == 'amask':
@@ -401,9 +413,9 @@ def mk_rop(letter, rng, nt, bo, atom):
     raise ValueError(letter)
 
 
-RALPHABET = ['a0', 'a1', 'a3', 'al', 'aod', 'asw', 'astr', 'amask', 'abig', 'abad', 'it0', 'it2', 'itbad', 't-1', 't0', 't1', 't2',
+RALPHABET = ['a0', 'a1', 'a3', 'al', 'aod', 'asw', 'astr', 'aovf', 'amask', 'abig', 'abad', 'it0', 'it2', 'itbad', 't-1', 't0', 't1', 't2',
              'tbig', 't-big', 'tni', 'ro', 'mr', 'mrw', 'ms', 'mc']
-RCOMPACT = ['a0', 'a1', 'a3', 'aod', 'asw', 'astr', 'it2', 't-1', 't-big', 't0', 't1', 'ro', 'mr', 'abad']
+RCOMPACT = ['a0', 'a1', 'a3', 'aod', 'asw', 'astr', 'aovf', 'it2', 't-1', 't-big', 't0', 't1', 'ro', 'mr', 'abad']
 
 
 def rhistory_case(rng, nt, bo, atom, indextype, sublens, letters, mode='r+', metadata=None):
